@@ -42,6 +42,8 @@ structure PCfg where
   clsValue : Option Int := none      -- `Parameter(…, value=…)`
   cfgDefault : Option Int := none    -- `default` given for the parameter in the configuration
   cfgValue : Option Int := none      -- `value` given for the parameter in the configuration
+  needscfg : Bool := false           -- `Parameter(…, needscfg=True)`: a value is required
+  cfgBad : Bool := false             -- the `value` given in the configuration is not of the parameter's datatype
 deriving Repr, DecidableEq, Inhabited
 
 /-- a parameter with a write method and declared default 0 that the configuration sets to 1 -/
@@ -131,6 +133,11 @@ def handleWrites (q : PCfg) : Option (String × Int) :=
   | none => none
   | some v => if hasWriteAttr q then some (q.name, v) else none
 
+/-- the two complaints of `_handle_writes` (modulebase.py:503-518): the configured value does not match the datatype
+(`self.errors.append(f'{pname}.{propname}: {e}')`), or no value at all although one is required (`… has no default value
+and was not given in config!`).  `Module.__init__` then raises `ConfigError(self.errors)`: the module is not created. -/
+def paramRejected (q : PCfg) : Bool := (q.cfgValue.isSome && q.cfgBad) || (q.value.isNone && q.needscfg)
+
 /-- `writeDict` of the module object made from `c` (`Module.__init__`: `_add_accessible` for every accessible, in the
 order of `accessibles`) -/
 def writeDict (c : ModCfg) : List (String × Int) := c.params.filterMap handleWrites
@@ -180,8 +187,9 @@ def getModuleInstance (st : St) (name : Name) : St × Res :=
   else match findCfg st.known name with
     | none => (st, .raised "NoSuchModule")
     | some c =>
-      if c.atts.any (fun a => a.mandatory && a.target.isNone) then
-        (addErr st ⟨"create", name, ""⟩, .none)        -- ConfigError of Module.__init__: mandatory property without value
+      if c.atts.any (fun a => a.mandatory && a.target.isNone) || c.params.any paramRejected then
+        -- ConfigError of Module.__init__: mandatory property without value, or a parameter value it rejects
+        (addErr st ⟨"create", name, ""⟩, .none)
       else
         let (st, c) := hasIoCreate st c
         (addModule st c, .ok name)
